@@ -12,7 +12,8 @@ Error values in prefix notation, one token per node:
 
   auth <www> <e>                    the server's authenticator returns <e>; <www> = configured WWW-Authenticate
       -> status=503 retry=<n> | status=401 reason=<x> cache=<x> www=<x|-> | status=500
-  chain <www> <o1> / <o2> / …       ChainAuthenticate(o1, o2, …) installed; <oi> = OK | <e>
+  authc <www> <e>                   same, but the authenticator returns (non-nil context, <e>)
+  chain <www> <o1> / <o2> / …       ChainAuthenticate(o1, o2, …) installed; <oi> = OK | <e> | C <e>  (C: context AND error)
       -> calls=<k> ret=ok:<i> pass | calls=<k> ret=err:<i> <response> | calls=<k> ret=exhausted <response>
 -/
 namespace Vgi.Drive.C23
@@ -66,7 +67,10 @@ def parseWhole (ws : List String) : Option AErr :=
   | _ => none
 
 def parseOutcome (ws : List String) : Option Outcome :=
-  if ws = ["OK"] then some .ok else (parseWhole ws).map .err
+  match ws with
+  | ["OK"] => some .ok
+  | "C" :: rest => (parseWhole rest).map .ctxErr
+  | _ => (parseWhole ws).map .err
 
 /-- split a word list on "/" -/
 def splitSlash : List String → List (List String)
@@ -87,6 +91,10 @@ def showResp (r : Resp) : String :=
 
 def step (st : Unit) (ws : List String) : Unit × String :=
   match ws with
+  | "authc" :: www :: expr =>   -- the authenticator returns a non-nil context together with the error
+    match parseHexArg www, parseWhole expr with
+    | some w, some e => (st, showResp (respond w e))
+    | _, _ => (st, "bad-op")
   | "auth" :: www :: expr =>
     match parseHexArg www, parseWhole expr with
     | some w, some e => (st, showResp (respond w e))
